@@ -340,7 +340,7 @@ func (e *env) directed(rng *rand.Rand) {
 		{"reserved-name-push", vh.Req{Method: "POST", URL: "/v2/index.json/blobs/uploads/"}, []string{"NAME_INVALID"}, vh.Dir, ""},
 		{"unknown-session", vh.Req{Method: "PATCH", URL: "/v2/r/blobs/uploads/nosuchsession?state=" + b64(`{"offset":0}`), Body: []byte("x")}, []string{"BLOB_UPLOAD_UNKNOWN"}, any, ""},
 		{"unknown-session-status", vh.Req{Method: "GET", URL: "/v2/r/blobs/uploads/nosuchsession"}, []string{"BLOB_UPLOAD_UNKNOWN"}, any, ""},
-		{"monolithic-digest-mismatch", vh.Req{Method: "POST", URL: "/v2/r/blobs/uploads/?digest=" + absentD, Body: []byte("other bytes")}, []string{"DIGEST_INVALID", "BLOB_UPLOAD_INVALID"}, any, ""},
+		{"monolithic-digest-mismatch", vh.Req{Method: "POST", URL: "/v2/r/blobs/uploads/?digest=" + absentD, Body: []byte("other bytes")}, []string{"DIGEST_INVALID"}, any, ""},
 		{"manifest-not-json", vh.Req{Method: "PUT", URL: "/v2/r/manifests/bad", H: map[string]string{"Content-Type": vh.MTImage}, Body: []byte("{{{")}, []string{"MANIFEST_INVALID"}, any, ""},
 		{"manifest-unsupported-type", vh.Req{Method: "PUT", URL: "/v2/r/manifests/bad", H: map[string]string{"Content-Type": "text/plain"}, Body: []byte("{}")}, []string{"MANIFEST_INVALID"}, any, ""},
 		{"manifest-digest-mismatch", vh.Req{Method: "PUT", URL: "/v2/r/manifests/" + absentD, H: map[string]string{"Content-Type": vh.MTImage}, Body: u.Mans[0].Raw}, []string{"DIGEST_INVALID"}, any, ""},
@@ -362,6 +362,11 @@ func (e *env) directed(rng *rand.Rand) {
 			dc{"malformed-range", vh.Req{Method: "PATCH", URL: l, H: map[string]string{"Content-Range": "abc"}, Body: []byte("x")}, []string{"SIZE_INVALID", "BLOB_UPLOAD_INVALID"}, any, sid},
 			dc{"put-missing-digest", vh.Req{Method: "PUT", URL: l}, []string{"DIGEST_INVALID"}, any, sid},
 		)
+	}
+	if ns := vh.Do(e.srv, vh.Req{Method: "POST", URL: "/v2/r/blobs/uploads/"}); ns.Status == 202 && ns.H.Get("Location") != "" {
+		// a session of its own: the refusal ends it
+		l := ns.H.Get("Location")
+		cases = append(cases, dc{"put-digest-mismatch", vh.Req{Method: "PUT", URL: l + "&digest=" + absentD, Body: []byte("bytes that do not hash to it")}, []string{"DIGEST_INVALID"}, any, sessID(l)})
 	}
 	// a request whose body ends before the announced length (or inside a chunk): the handler's read fails with an
 	// unexpected EOF. The client broke the request; it can still be listening (half-closed connection), so the
